@@ -214,13 +214,22 @@ func runC01(r *core.Run) {
 	f.Endorse(r, worldp.Req{Image: small[0], SNP: true, LaunchVmsas: 2})
 	net := NewSimNet(r)
 
+	// Prime the (long-lived) verifier process: every genuine endorsement is first verified under
+	// the right root inside its window, so anything a verifier remembers between calls is in place
+	// when the hostile deliveries arrive.
+	for _, is := range a.Issued {
+		t := is.Cert.NotBefore.Add(time.Hour)
+		if err := verify.Endorsement(is.Bytes, &verify.Options{RootsOfTrust: Pool(a.Root), Now: t}); err == nil {
+			r.Probe("primed")
+		}
+	}
 	nVerify := 2 + r.Intn(5, "verifications")
 	var samples []string
 	for v := 0; v < nVerify; v++ {
 		base := a.Issued[r.Intn(len(a.Issued), "base")]
 		d := deliver(r, a, f, base)
 		// roots
-		rootKind := r.Intn(6, "roots")
+		rootKind := r.Intn(7, "roots")
 		var rootList []*x509.Certificate
 		switch rootKind {
 		case 0, 1:
@@ -233,6 +242,9 @@ func runC01(r *core.Run) {
 			rootList = []*x509.Certificate{} // empty pool
 		case 5:
 			rootList = nil // nil pool
+		case 6:
+			// a root with the genuine root's names and validity but another key
+			rootList = []*x509.Certificate{LookalikeRoot(a.Root, AttackerKey(a, 4))}
 		}
 		var cpool *x509.CertPool
 		if rootKind != 5 {
@@ -265,8 +277,8 @@ func runC01(r *core.Run) {
 			skew := []time.Duration{-6 * 365 * 24 * time.Hour, -24 * time.Hour, time.Hour, 6 * 365 * 24 * time.Hour}[r.Intn(4, "skew")]
 			t, timeClass = a.A.Now.Add(skew), "skewed-now"
 		}
-		entry := r.Intn(12, "entry")
-		if entry >= 9 && !(wantTDX) { // TDX entries need a TDX world
+		entry := r.Intn(14, "entry")
+		if entry >= 9 && entry <= 11 && !(wantTDX) { // TDX entries need a TDX world
 			entry = r.Intn(9, "entry-snp")
 		}
 		var err error
@@ -294,6 +306,9 @@ func runC01(r *core.Run) {
 			outcome = "accept"
 		}
 		nontrivial := !d.genuine || rootKind >= 2 || timeClass != "inside"
+		if rootKind == 6 {
+			r.Probe("lookalike-root")
+		}
 		r.Eval(fmt.Sprintf("%s|%s|roots%d|%s|%s", name, opClass(d.op), rootKind, timeClass, outcome), nontrivial)
 		r.Eventf("verify entry=%s op=%s roots=%d time=%s -> %s (reference ok=%v)", name, opClass(d.op), rootKind, timeClass, outcome, verdict.OK())
 		if len(samples) < 4 {
@@ -415,6 +430,19 @@ func callEntry(r *core.Run, entry int, d delivery, cpool *x509.CertPool, rootLis
 			io.Files["quote.bin"] = TdxQuoteRaw(TdxQuote(mrtd))
 			return runCLI(b, "tdx", "validate", "--root_cert", "roots.pem", "--endorsement", "e.binarypb", "quote.bin"), "cli/tdx-validate", false
 		}
+	case 12:
+		// the caller's endorsement is the delivery, while the attestation's certificate table
+		// carries the genuine one: the caller's must be the one authenticated
+		if !parsed {
+			return nil, "", true
+		}
+		return gcetcbendorsement.SevValidate(ctx, SnpAttestation(meas, d.base.Bytes), &gcetcbendorsement.SevValidateOptions{Endorsement: le, RootsOfTrust: cpool, Now: t}), "SevValidate/given+table", false
+	case 13:
+		if !parsed {
+			return nil, "", true
+		}
+		f := verify.SNPValidateFunc(&verify.Options{RootsOfTrust: cpool, Now: t, Endorsement: le})
+		return f(SnpAttestation(meas, nil), d.base.Bytes), "closure/options+table", false
 	default: // 9, 10: TdxValidate with the endorsement supplied
 		if !parsed || len(mrtd) != 48 {
 			return nil, "", true
